@@ -131,7 +131,8 @@ Why(e) ==
          ELSE IF e.i \notin startedT \ endedT THEN "harness.TEndWithoutStart" ELSE "ok"
     [] e.ev = "CbEnd" ->
          IF e.c # call THEN "ok"
-         ELSE IF ~(Range(e.lo, e.hi) \subseteq endedT) THEN "harness.CallbackBeforeTaskEnd" ELSE "ok"
+         \* (after a stop the backend also calls back for batches it cancelled or whose worker it killed)
+         ELSE IF ~stopped /\ ~(Range(e.lo, e.hi) \subseteq endedT) THEN "harness.CallbackBeforeTaskEnd" ELSE "ok"
     [] e.ev = "Poll" ->
          IF phase # "running" THEN "harness.PollOutsideCall"
          ELSE IF IsGen /\ want /\ ~stopped /\ ~iterRaised /\ availSeen /\ HeadAvailable THEN "C16.NotPrompt"
